@@ -221,6 +221,42 @@ def relative_error_rule(chk, src, rule):
                               f"{'with' if kr == 'full' else 'without'} it: the estimate is off by |coeff| and steps are accepted/rejected against a different tolerance whenever coeff != 1")
     return n
 
+
+# ------------------------------------------------------------------------------------------ temporary configuration changes
+def config_restore_rule(chk, src, rule):
+    """save -> modify attributes in place -> restore: the saved value must be a copy, otherwise the restore is a no-op and the temporary settings stay on the object
+    (and on every state later derived from it)"""
+    from .. import qn as Q
+    n = 0
+    for rel in (MPS, "renormalizer/mps/mp.py", "renormalizer/mps/gs.py", "renormalizer/mps/lib.py", "renormalizer/tn/tree.py", TEVO):
+        for fi in src.funcs_in(rel):
+            if fi.parent is not None:
+                continue
+            order = Q.stmts_in_order(fi.node)
+            saved = {}     # name -> (config expression text, is_copy, position)
+            for pos, st in enumerate(order):
+                if isinstance(st, ast.Assign) and len(st.targets) == 1 and isinstance(st.targets[0], ast.Name):
+                    v = st.value
+                    is_copy = isinstance(v, ast.Call) and isinstance(v.func, ast.Attribute) and v.func.attr in ("copy", "deepcopy") and not v.args
+                    base = v.func.value if is_copy else v
+                    if isinstance(base, ast.Attribute) and base.attr.endswith("_config"):
+                        saved[st.targets[0].id] = (unparse(base), is_copy, pos)
+            for name, (cfg, is_copy, p0) in saved.items():
+                restores = [pos for pos, st in enumerate(order) if pos > p0 and isinstance(st, ast.Assign) and isinstance(st.value, ast.Name) and st.value.id == name
+                            and any(unparse(t) == cfg for t in st.targets)]
+                if not restores:
+                    continue
+                muts = [st for pos, st in enumerate(order) if p0 < pos < restores[-1] and isinstance(st, (ast.Assign, ast.AugAssign))
+                        and any(isinstance(t, ast.Attribute) and unparse(t.value) == cfg for t in (st.targets if isinstance(st, ast.Assign) else [st.target]))]
+                if not muts:
+                    continue
+                n += 1
+                chk.ob(rule, f"{fi.qual}: {name} = {cfg}{'.copy()' if is_copy else ''} ... {cfg} = {name}", is_copy, fi.where,
+                       "the saved value is the same object that is modified" if not is_copy else "saved as a copy", "saved with .copy() before the settings are changed in place", line=order[p0].lineno,
+                       detail=f"{fi.qual} changes {len(muts)} attribute(s) of {cfg} temporarily and restores `{name}` afterwards; `{name}` aliases the modified object, so nothing is restored: "
+                              "the object (and every state derived from it later) keeps the temporary settings - e.g. a second-order scheme silently continues as a first-order one")
+    return n
+
 # ------------------------------------------------------------------------------------------ solver sibling
 def prologue_env(fi, imag, krylov):
     """symbolic values of evolve_dt / coef after the prologue for (imaginary-time?, krylov-solver?)"""
@@ -487,6 +523,8 @@ def run(chk):
     add_cases(chk, "heff-network", K.hop_expr_cases(src), "effective Hamiltonian")
     must_compress_rule(chk, src, "must-compress")
     adaptive_reject_rule(chk, src, "adaptive-reject")
+    chk.rule("config-restore", "temporarily modified configuration objects are saved as copies before and restored after", 1)
+    config_restore_rule(chk, src, "config-restore")
     chk.rule("relative-error-homogeneous", "adaptive error estimates divide norms of the same kind (both with or both without the scalar prefactor)", 3)
     relative_error_rule(chk, src, "relative-error-homogeneous")
     rk_usage_rule(chk, src, "rk-usage")
